@@ -251,7 +251,7 @@ func scanFlush(w *verifsim.NDJSONWriter, evs []verifsim.Ev) int {
 				metaIDs[e["scanner"].(int)] = true
 				continue
 			}
-		case "scanCont", "scanResp", "scanClose", "scanExc", "scanRenew":
+		case "scanCont", "scanResp", "scanClose", "scanExc", "scanRenew", "scanUnknown":
 			if metaIDs[e["scanner"].(int)] {
 				continue
 			}
